@@ -125,6 +125,9 @@ class time_limit:  # pylint: disable=invalid-name
 
     def __enter__(self):
         import signal
+        # nestable: remember what was left of an enclosing limit and re-arm it on exit
+        self._outer_left = signal.getitimer(signal.ITIMER_REAL)[0]
+        self._t0 = time.time()
         self._old = signal.signal(signal.SIGALRM, self._handler)
         signal.setitimer(signal.ITIMER_REAL, self.seconds)
         return self
@@ -133,10 +136,15 @@ class time_limit:  # pylint: disable=invalid-name
         import signal
         signal.setitimer(signal.ITIMER_REAL, 0)
         signal.signal(signal.SIGALRM, self._old)
+        if self._outer_left:
+            signal.setitimer(signal.ITIMER_REAL, max(0.05, self._outer_left - (time.time() - self._t0)))
         return False
 
 
 EXEC_HORIZON = float(os.environ.get('DOSMC_EXEC_HORIZON', '30'))
+# an execution that exceeds the horizon is re-run once with this much more time before it is reported as a hang, so that a
+# slow (heavily loaded) machine cannot turn into a violation
+HORIZON_RETRY_FACTOR = 8
 
 
 def _worker_init():
